@@ -21,6 +21,9 @@ LineOK(x) ==
   /\ \A i \in 2..n : (Ans(x, i - 1) = "bare" /\ ~x.reqs[i - 1].auth) => (x.reqs[i].auth /\ x.reqs[i].accepted)
   \* any token sent at all is an acceptable one
   /\ \A i \in 1..n : x.reqs[i].auth => x.reqs[i].accepted
+  \* and the independent acceptor (MIT's gss_accept_sec_context holding the service keys; "" = not available) accepts it too: context
+  \* complete, for the client that logged in, with a ticket for the principal of the host the request went to
+  /\ \A i \in 1..n : x.reqs[i].auth => x.reqs[i].mit \in {"accepted", ""}
   \* the call returns the server's final response, or an error
   /\ x.result = "error" \/ x.result = Ans(x, n) \/ (x.result = "redirect" /\ Ans(x, n) \in {"rs", "ro"})
   \* a challenge that was never answered with a token must not be the final response of a call that could authenticate
